@@ -67,21 +67,26 @@ contract('saml2_tophat.mdstore:MetaData.certs', trusted=False, pure=True, return
 contract('saml2_tophat.sigver:CertHandler.verify_cert', trusted=False, pure=True, returns='Bool',
          types={'cert_file': 'Any'}, ensures=['truthy(result) == cert_ok(self, cert_file)'],
          raises={'Exception': 'True'}, modifies=[])
-contract(SC + '.verify_signature', trusted=False, pure=True,
-         types={'signedtext': 'Any', 'cert_file': 'Any', 'cert_type': 'Any', 'node_name': 'Any', 'node_id': 'Any',
-                'id_attr': 'Any'},
-         ensures=[('C20-ok-means-verified', 'implies(truthy(result), XS_OK(signedtext, node_name, node_id, ite(truthy(cert_file), cert_file, self.cert_file)))')],
-         raises={'XmlsecError': 'True', 'OSError': 'True', 'Exception': 'True'}, modifies=[])
+contract(SC + '.verify_signature', pure=True,
+         types={'signedtext': 'Union(Str, Bytes)', 'cert_file': 'Opt(Str)', 'cert_type': 'Str', 'node_name': 'Str',
+                'node_id': 'Opt(Str)', 'id_attr': 'Str'},
+         returns='Bool',
+         requires=['truthy(cert_file) or truthy(self.cert_file)'],
+         ensures=[('true', 'result is True'),
+                  ('C20-ok-means-verified', 'implies(truthy(node_id), XS_OK(DOC(signedtext), node_name, node_id, '
+                                            'ite(truthy(cert_file), cert_file, self.cert_file)))')],
+         raises={'XmlsecError': 'True', 'OSError': 'True', 'UnicodeDecodeError': 'True'}, modifies=[],
+         clauses_from={'C20': ['C20-ok-means-verified']})
 
 _ISS = ("ite(item.issuer is not None and item.issuer.text is not None, vstr(strip(item.issuer.text)), "
         "ite(issuer is not None and issuer.text is not None, vstr(strip(issuer.text)), None))")
 _USED = ("(truthy(self.metadata) and len(md_certs(self.metadata, ISS)) > 0 and k < len(md_certs(self.metadata, ISS)) "
-         " and XS_OK(decoded_xml, node_name, item.id, tmpfile(pem(md_certs(self.metadata, ISS)[k])))) or "
+         " and XS_OK(DOC(decoded_xml), node_name, item.id, tmpfile(pem(md_certs(self.metadata, ISS)[k])))) or "
          "(not (truthy(self.metadata) and len(md_certs(self.metadata, ISS)) > 0) and not truthy(self.only_use_keys_in_metadata) "
-         " and k < len(inst_certs(item)) and XS_OK(decoded_xml, node_name, item.id, tmpfile(pem(inst_certs(item)[k]))))")
+         " and k < len(inst_certs(item)) and XS_OK(DOC(decoded_xml), node_name, item.id, tmpfile(pem(inst_certs(item)[k]))))")
 contract(SC + '._check_signature',
-         types={'decoded_xml': 'Any', 'item': "Inst('saml2_tophat:SamlBase')", 'node_name': 'Any', 'origdoc': 'Any',
-                'id_attr': 'Any', 'must': 'Any', 'only_valid_cert': 'Any',
+         types={'decoded_xml': 'Union(Str, Bytes)', 'item': "Inst('saml2_tophat:SamlBase')", 'node_name': 'Str', 'origdoc': 'Any',
+                'id_attr': 'Str', 'must': 'Any', 'only_valid_cert': 'Any',
                 'issuer': "Opt(Inst('saml2_tophat.saml:Issuer'))"},
          returns="Inst('saml2_tophat:SamlBase')",
          requires=["isinstance(item, 'saml2_tophat.saml:AssertionType_') or isinstance(item, 'saml2_tophat.samlp:RequestAbstractType_') "
@@ -92,7 +97,7 @@ contract(SC + '._check_signature',
                   # C01/C03/C10: normal return => the signature verified (tool said OK for this element id) under a
                   # certificate metadata holds for the issuer -- or, only when metadata has none and the configuration
                   # allows it, under a certificate embedded in the element's own signature
-                  ('C03-verified-under-issuer-key', 'exists(lambda k: %s, 0, len(md_certs(self.metadata, ISS)) + len(inst_certs(item)))' % _USED)],
+                  ('C03-verified-under-issuer-key', 'implies(truthy(item.id), SIG_OK(self, decoded_xml, item, node_name, issuer))')],
          raises={'Exception': 'True'},
          modifies=[],
          loops={0: {'inv': ['len(certs) == i0',
@@ -161,3 +166,100 @@ contract(XB + '.validate_signature',
                   ('C20-ok-means-verified', 'implies(truthy(node_id), XS_OK(DOC(signedtext), node_name, node_id, cert_file))')],
          raises={'XmlsecError': 'True', 'OSError': 'True', 'UnicodeDecodeError': 'True'}, modifies=[],
          clauses_from={'C20': ['C20-ok-means-verified'], 'C01': ['C20-ok-means-verified']})
+
+
+# ================================================================================================ message level (C01, C02, C10)
+ghost('cname', ['Val'], 'Val')      # "<namespace>:<tag>" of an element object (class constants)
+contract('saml2_tophat:class_name', trusted=True, pure=True, params=['instance'], returns='Str',
+         ensures=['result == cname(instance)'], assumptions=['A-PY'], note='two class constants joined by ":"')
+
+# "the element's own signature verified under a key the issuer has in metadata (or, failing that and if allowed, an
+# embedded one)": the post of _check_signature, as a macro over (security context, document, element, issuer hint)
+_ISSM = ("ite(item.issuer is not None and item.issuer.text is not None, vstr(strip(item.issuer.text)), "
+         "ite(iss is not None and iss.text is not None, vstr(strip(iss.text)), None))")
+macro('ISSUER_OF', ['item', 'iss'], _ISSM)
+macro('SIG_OK', ['sec', 'doc', 'item', 'nn', 'iss'],
+      "exists(lambda k: "
+      "(truthy(sec.metadata) and len(md_certs(sec.metadata, ISSUER_OF(item, iss))) > 0 and k < len(md_certs(sec.metadata, ISSUER_OF(item, iss))) "
+      " and XS_OK(DOC(doc), nn, item.id, tmpfile(pem(md_certs(sec.metadata, ISSUER_OF(item, iss))[k])))) or "
+      "(not (truthy(sec.metadata) and len(md_certs(sec.metadata, ISSUER_OF(item, iss))) > 0) and not truthy(sec.only_use_keys_in_metadata) "
+      " and k < len(inst_certs(item)) and XS_OK(DOC(doc), nn, item.id, tmpfile(pem(inst_certs(item)[k])))), "
+      "0, len(md_certs(sec.metadata, ISSUER_OF(item, iss))) + len(inst_certs(item)))")
+
+contract(SC + '.check_signature',
+         types={'item': "Inst('saml2_tophat:SamlBase')", 'node_name': 'Str', 'origdoc': 'Union(Str, Bytes)', 'id_attr': 'Str',
+                'must': 'Any', 'issuer': "Opt(Inst('saml2_tophat.saml:Issuer'))"},
+         returns="Inst('saml2_tophat:SamlBase')",
+         requires=["isinstance(item, 'saml2_tophat.saml:AssertionType_') or isinstance(item, 'saml2_tophat.samlp:RequestAbstractType_') "
+                   "or isinstance(item, 'saml2_tophat.samlp:StatusResponseType_')"],
+         ensures=[('same-item', 'result == item'),
+                  ('C01-verified', 'implies(truthy(item.id), SIG_OK(self, origdoc, item, node_name, issuer))')],
+         raises={'Exception': 'True'}, modifies=[],
+         clauses_from={'C01': ['C01-verified'], 'C03': ['C01-verified']})
+
+contract(SC + '.correctly_signed_response',
+         types={'decoded_xml': 'Union(Str, Bytes)', 'must': 'Any', 'origdoc': 'Any', 'only_valid_cert': 'Any',
+                'require_response_signature': 'Any', 'kwargs': 'Dict(Str, Any)'},
+         returns=SRT,
+         ensures=[('parsed', 'is_resp(decoded_xml) and truthy(result.signature) == RP(decoded_xml) and fresh(result)'),
+                  ('C02-required', 'implies(truthy(require_response_signature), RP(decoded_xml))'),
+                  ('C01-verified', "implies(RP(decoded_xml) and not ('do_not_verify' in kwargs) and truthy(result.id), "
+                                   "SIG_OK(self, decoded_xml, result, cname(result), None))")],
+         raises={'TypeError': 'True', 'SigverError': 'True', 'Exception': 'True'},
+         modifies=[],
+         clauses_from={'C01': ['C01-verified'], 'C02': ['C02-required', 'C01-verified']})
+
+
+# ---- requests and other non-response messages: one specialised variant of correctly_signed_message per message type
+# (the function picks the parser with getattr(samlp, '<type>_from_string'); with the type a constant this is exact)
+def _msg_variants():
+    from pyvc import front
+    import ast as _ast
+    samlp = front.module_obj('saml2_tophat.samlp')
+    saml = front.module_obj('saml2_tophat.saml')
+    fi = front.module_ast('saml2_tophat.sigver')
+    types = set()
+    for n in _ast.walk(fi):
+        if isinstance(n, _ast.Call) and isinstance(n.func, _ast.Attribute) and n.func.attr == 'correctly_signed_message' \
+                and len(n.args) >= 2 and isinstance(n.args[1], _ast.Constant):
+            types.add(n.args[1].value)
+    out = {}
+    for t in sorted(types):
+        fn = getattr(samlp, t + '_from_string', None) or getattr(saml, t + '_from_string', None)
+        if fn is None:
+            continue
+        mod = fn.__module__
+        # the class the parser instantiates, from the generated ELEMENT_FROM_STRING table of that module
+        table = getattr(front.module_obj(mod), 'ELEMENT_FROM_STRING', {})
+        cls = None
+        for tag, f in table.items():
+            if f is fn:
+                for c in vars(front.module_obj(mod)).values():
+                    if isinstance(c, type) and getattr(c, 'c_tag', None) == tag:
+                        cls = front.cls_qual(c)
+        if cls:
+            out[t] = ('%s:%s_from_string' % (mod, t), cls)
+    return out
+
+
+ghost('is_msg', ['Val', 'Val'], 'Bool')     # is_msg(type, text): the text parses as that message type
+MSG_VARIANTS = _msg_variants()
+_variants = {}
+for _t, (_fq, _cls) in MSG_VARIANTS.items():
+    contract(_fq, trusted=True, params=['xml_string'], returns="Opt(Inst('%s'))" % _cls,
+             ensures=['(result is not None) == is_msg(%r, xml_string)' % _t, 'implies(result is not None, fresh(result))'],
+             raises={'Exception': 'True'}, assumptions=['E-PARSE', 'E-DEFUSED'])
+    _vq = SC + '.correctly_signed_message[%s]' % _t
+    _variants[('msgtype', _t)] = _vq
+    contract(_vq, variant_of=SC + '.correctly_signed_message', consts={'msgtype': _t},
+             types={'decoded_xml': 'Union(Str, Bytes)', 'must': 'Any', 'origdoc': 'Any', 'only_valid_cert': 'Any'},
+             returns="Inst('%s')" % _cls,
+             ensures=[('C10-parsed-as-expected-type', 'is_msg(%r, decoded_xml) and fresh(result)' % _t),
+                      ('C10-must', 'implies(truthy(must), truthy(result.signature))'),
+                      ('C10-verified', 'implies(truthy(result.signature) and truthy(result.id), '
+                                       'SIG_OK(self, decoded_xml, result, cname(result), None))')],
+             raises={'TypeError': 'True', 'SigverError': 'True', 'Exception': 'True'}, modifies=[],
+             clauses_from={'C10': ['C10-parsed-as-expected-type', 'C10-must', 'C10-verified'], 'C01': ['C10-verified']})
+contract(SC + '.correctly_signed_message', trusted=True, variants=_variants,
+         note='dispatch stub: every call site in the package passes a constant message type and is checked against the '
+              'specialised variant; a call with a non-constant type would fall back to this (no guarantees)')
